@@ -59,7 +59,7 @@ Proof.
 Qed.
 
 Definition mk (id : nat) (k : ckind) (i : nat) (sc : list op) : call :=
-  {| c_id := id; c_kind := k; c_if := i; c_spawn := true; c_script := sc |}.
+  {| c_id := id; c_kind := k; c_if := i; c_spawn := true; c_noreply := false; c_script := sc |}.
 
 (* What the repair of Properties::get / set / get_all (/repo d9501501) left: Introspectable::introspect (and
    ObjectManager::get_managed_objects, same shape, not modelled) still keeps the root read guard while it read-locks the
@@ -117,7 +117,7 @@ Proof. vm_compute. reflexivity. Qed.
    OTHER interfaces, property handlers that register on their own *)
 Definition ex_mixed : list call :=
   [mk 0 KGet 0 [OAwait 2; OAt]; mk 1 KSetMut 0 [OAwait 1; ORemove]; mk 2 KMut 1 [OAt; ORemove]; mk 3 KGetAll 0 [OAt];
-   {| c_id := 4; c_kind := KRef; c_if := 2; c_spawn := false; c_script := [OAt] |}; mk 5 KIntro 3 []; mk 6 KMut 1 [OIface 3]].
+   {| c_id := 4; c_kind := KRef; c_if := 2; c_spawn := false; c_noreply := false; c_script := [OAt] |}; mk 5 KIntro 3 []; mk 6 KMut 1 [OIface 3]].
 Example ex_mixed_safe : Known_C30 ex_mixed = false /\ handlers_only ex_mixed = false.
 Proof. vm_compute. split; reflexivity. Qed.
 Example ex_mixed_runs : ex_check ex_mixed (auto_run 2000 (init ex_mixed) []) = true /\
